@@ -342,6 +342,98 @@ func HarnessC06FnTypes() {
 
 var c06FnPositions = []string{"argument of a function-typed parameter", "annotated let", "assignment to a function-typed variable", "struct field initialiser", "return value", "assignment to a function-typed field"}
 
+// ---------------------------------------------------------------------------------------------------- C14
+// c14LitIDs parses src and returns the IDs the parser gave to its function / struct / interface / enum literals.
+func c14LitIDs(file, src string) []string {
+	bag := diagnostics.NewDiagnosticBag("")
+	toks := lexer.New(file, src, bag).Tokenize(false)
+	mod := parser.Parse(toks, file, bag)
+	var ids []string
+	var walkType func(t ast.TypeNode)
+	var walkExpr func(e ast.Expression)
+	var walkNode func(n ast.Node)
+	walkType = func(t ast.TypeNode) {
+		switch v := t.(type) {
+		case *ast.StructType:
+			ids = append(ids, v.ID)
+		case *ast.InterfaceType:
+			ids = append(ids, v.ID)
+		case *ast.EnumType:
+			ids = append(ids, v.ID)
+		}
+	}
+	walkExpr = func(e ast.Expression) {
+		if fl, ok := e.(*ast.FuncLit); ok && fl != nil {
+			ids = append(ids, fl.ID.Name)
+			if fl.Body != nil {
+				for _, n := range fl.Body.Nodes {
+					walkNode(n)
+				}
+			}
+		}
+	}
+	walkNode = func(n ast.Node) {
+		switch v := n.(type) {
+		case *ast.FuncDecl:
+			if v.Body != nil {
+				for _, x := range v.Body.Nodes {
+					walkNode(x)
+				}
+			}
+		case *ast.DeclStmt:
+			walkNode(v.Decl)
+		case *ast.VarDecl:
+			for _, d := range v.Decls {
+				if d.Type != nil {
+					walkType(d.Type)
+				}
+				if d.Value != nil {
+					walkExpr(d.Value)
+				}
+			}
+		case *ast.TypeDecl:
+			walkType(v.Type)
+		}
+	}
+	if mod != nil {
+		for _, n := range mod.Nodes {
+			walkNode(n)
+		}
+	}
+	return ids
+}
+
+// HarnessC14LitIDs: two modules, each with two function literals, an anonymous struct type, an enum and an interface,
+// are parsed by two logical threads (as the pipeline parses modules in goroutines).  Under EVERY interleaving of the
+// synchronisation operations the parser performs (process-wide atomic counters are such operations), the IDs each
+// module's literals receive are the ones it receives when it is parsed alone: they become names of generated symbols,
+// so anything else makes the emitted code depend on the schedule.
+func HarnessC14LitIDs() {
+	srcA := "type Ea enum { P, Q };\ntype Ia interface { m() -> i32 };\nfn fa() {\nlet f := fn() -> i32 { return 1; };\nlet g := fn(a: i32) -> i32 { return a; };\nlet s: struct { .X: i32 } = { .X = 1 };\n}\n"
+	srcB := "type Eb enum { R };\nfn fb() {\nlet h := fn() { };\nlet t: struct { .Y: i64 } = { .Y = 2 };\nlet k := fn(b: i64) -> i64 { return b; };\n}\n"
+	aloneA := c14LitIDs("p/a.fer", srcA)
+	aloneB := c14LitIDs("p/b.fer", srcB)
+	verifrt.Assert(len(aloneA) == 5 && len(aloneB) == 4, "CALIBRATION: the literals of the two modules are not all found")
+	var gotA, gotB []string
+	verifrt.Interleave(
+		func() { gotA = c14LitIDs("p/a.fer", srcA) },
+		func() { gotB = c14LitIDs("p/b.fer", srcB) },
+	)
+	same := len(gotA) == len(aloneA) && len(gotB) == len(aloneB)
+	for i := 0; same && i < len(gotA); i++ {
+		same = gotA[i] == aloneA[i]
+	}
+	for i := 0; same && i < len(gotB); i++ {
+		same = gotB[i] == aloneB[i]
+	}
+	verifrt.Assert(same, "the IDs given to the literals of a module depend on how its parse goroutine interleaves with another module's")
+	seen := map[string]bool{}
+	for _, id := range append(append([]string{}, gotA...), gotB...) {
+		verifrt.Assert(!seen[id], "two literals of the project received the same ID")
+		seen[id] = true
+	}
+}
+
 // ---------------------------------------------------------------------------------------------------- C19
 type c19Prog struct {
 	src      string
